@@ -19,6 +19,21 @@ open HydroVerif.C07 HydroVerif.Generated.FlowDir
 
 variable {g : FlowGrid}
 
+/-! ### 0. the direction-code table read from grid.py is the ESRI table -/
+
+/-- **the generated table** (`FLOWDIRCODE.ravel()` as it is in grid.py now): nine codes, no code twice, the
+sink code 0 in the centre, direction `m` clockwise from east coded `2^m` at the neighbour position of its
+offset, and position `8 - k` holding the opposite direction — what `c_downstream` (lookup) and `c_upstream`
+(mirrored lookup) rely on. Closed by `decide` on the table: a swapped, duplicated or missing entry in
+grid.py fails here (and in every theorem below, which all go through these facts). -/
+theorem flowdir_table_is_esri :
+    codes.length = 9 ∧ codes.Nodup ∧ codes[4]? = some 0 ∧
+    (∀ m, m < 8 → codes[esriPos m]? = some ((2 : Int) ^ m)) ∧
+    (∀ m, m < 8 → codes[8 - esriPos m]? = some ((2 : Int) ^ ((m + 4) % 8))) ∧
+    (∀ m, m < 8 → nbDx (esriPos m) = esriDx m ∧ nbDy (esriPos m) = esriDy m) :=
+  ⟨codes_length, codes_nodup, codes_centre, codes_esri, codes_mirror,
+    fun m hm => ⟨esri_nbDx m hm, esri_nbDy m hm⟩⟩
+
 /-! ### 1. upstream and downstream are inverse relations; sinks and exits are flagged -/
 
 /-- **inverse relations**: for valid cells `u`, `d`: `u` is listed upstream of `d` exactly when `d` is
